@@ -246,10 +246,16 @@ Definition key_name (s : schema) : string :=
 
 Definition mem_z (x : Z) (l : list Z) : bool := existsb (Z.eqb x) l.
 
-(* rows an UPDATE reaches: chain conditions (id IN ...) and the model value's key *)
-Definition targeted (stored : list Z) (model_key : Z) (where_ids : option (list Z)) : list Z :=
-  filter (fun id => ((model_key =? 0) || (id =? model_key))
-                    && match where_ids with None => true | Some l => mem_z id l end) stored.
+(* rows an UPDATE reaches: chain conditions (row IN ...) and the model value's key *)
+(* a stored row = (row identity, values of its primary-key members in field order);
+   the model value's key = one entry per primary-key member, 0 = that member is zero (no condition).
+   ConvertToAssignments adds an Eq for EVERY non-zero primary field of the model value. *)
+Definition srow := (Z * list Z)%type.
+Definition key_match (mk ks : list Z) : bool :=
+  forallb (fun pr => (fst pr =? 0) || (snd pr =? fst pr)) (combine mk ks).
+Definition targeted (stored : list srow) (model_key : list Z) (where_ids : option (list Z)) : list Z :=
+  map fst (filter (fun r => key_match model_key (snd r)
+                            && match where_ids with None => true | Some l => mem_z (fst r) l end) stored).
 
 Definition cells_for (rows : list Z) (set : list assignment) : list cell :=
   flat_map (fun r => map (fun a => mk_cell r (fst a) (snd a)) set) rows.
@@ -301,7 +307,8 @@ Definition upsert (s : schema) (table : string) (selects omits : list sitem) (st
   end.
 
 Definition run_op (s : schema) (table : string) (o : op) (selects omits : list sitem)
-           (ps : list payload) (stored : list Z) (model_key : Z) (where_ids : option (list Z)) : outcome :=
+           (ps : list payload) (stored : list srow) (model_key : list Z) (where_ids : option (list Z)) : outcome :=
+  let ids := map fst stored in       (* single-key types: row identity = stored key *)
   let p := match ps with p :: _ => p | [] => (0, []) end in
   let rows := targeted stored model_key where_ids in
   match o with
@@ -314,7 +321,7 @@ Definition run_op (s : schema) (table : string) (o : op) (selects omits : list s
       mk_outcome (map (fun a => mk_cell 1001 (fst a) (snd a))
                       (filter (fun a => negb (String.eqb (fst a) (key_name s)))
                               (canon s (map (fun c => (c, KPay)) cols)))) false
-  | OUpsertAll | OUpsertNothing | OUpsertCols _ => upsert s table selects omits stored [] o p
+  | OUpsertAll | OUpsertNothing | OUpsertCols _ => upsert s table selects omits ids [] o p
   | OSave =>
       if fst p =? 0 then
         let sm := select_and_omit s table selects omits true false in
@@ -323,12 +330,12 @@ Definition run_op (s : schema) (table : string) (o : op) (selects omits : list s
         let selects' := match selects with [] => [SStar] | _ => selects end in
         let sm := select_and_omit s table selects' omits false true in
         let set := assign_struct s sm false true p in
-        if mem_z (fst p) stored then do_update s [fst p] set
+        if mem_z (fst p) ids then do_update s [fst p] set
         else match selects with
              | [] => (* 0 rows: Create with OnConflict{UpdateAll}; the struct already carries NowFunc()
                         in the tracked fields the UPDATE assigned *)
                  let forced := map fst (filter (fun a => match snd a with KNow => true | _ => false end) set) in
-                 upsert s table selects' omits stored forced OUpsertAll p
+                 upsert s table selects' omits ids forced OUpsertAll p
              | _ => mk_outcome [] false
              end
   | OUpdatesStruct =>
